@@ -5,6 +5,8 @@
   of the three rendered date formats.
 -/
 import LtVerif.Model.Date
+set_option linter.unusedSimpArgs false
+set_option linter.unusedVariables false
 namespace LtVerif
 namespace Date
 open B
